@@ -579,6 +579,8 @@ package car
 //@   let sel, cerr := call[selector.CompileSelector#0]
 //@   let rootNode, lerr := call[LinkSystem.Load#0]
 //@   call[selector.CompileSelector#0] assert the_given_selector [C15]: ref(arg0) == ref(s)
+//@   call[Progress.WalkMatching#0] assert decodes_with_the_configured_prototype_chooser [C15]: opts.TraversalPrototypeChooser != nil ==> ref(arg0.Cfg.LinkTargetNodePrototypeChooser) == ref(opts.TraversalPrototypeChooser)
+//@   call[dynamic#0] assert the_root_is_decoded_with_the_same_chooser [C15]: opts.TraversalPrototypeChooser != nil ==> ref(chooser) == ref(opts.TraversalPrototypeChooser)
 //@   call[Progress.WalkMatching#0] assert the_link_budget_is_the_configured_maximum [C15]: ite(opts.MaxTraversalLinks < 9223372036854775807, arg0.Budget != nil && arg0.Budget.LinkBudget == opts.MaxTraversalLinks && arg0.Budget.NodeBudget == 9223372036854775807, arg0.Budget == nil)
 //@   closure[1]
 //@     let lbr, lberr := call[LargeBytesNode.AsLargeBytes#0]
